@@ -67,11 +67,11 @@ package samlsp
 
 //@ contract (JWTTrackedRequestCodec).Decode
 //@ requires[cfg] cfg: s.SigningMethod != nil && s.Key != nil
-//@ ensures[C17] nil_iff_err: (result == nil) == (err != nil)
-//@ assert@call[C17] ParseWithClaims #1 (p *jwt.Parser, token string) allowed_methods:
+//@ ensures[C04,C17] nil_iff_err: (result == nil) == (err != nil)
+//@ assert@call[C04,C17] ParseWithClaims #1 (p *jwt.Parser, token string) allowed_methods:
 //@    p != nil && len(p.ValidMethods) == 1 && p.ValidMethods[0] == s.SigningMethod.Alg() && token == signed
 //@ -- a tracked request is returned only for tokens carrying the tracking marker (a session token is not one)
-//@ assert@store[C17] Index #1 uses claims JWTTrackedRequestClaims only_marked_tokens:
+//@ assert@store[C04,C17] Index #1 uses claims JWTTrackedRequestClaims only_marked_tokens:
 //@    claims.SAMLAuthnRequest && claims.Issuer == s.Issuer && s.Issuer != ""
 
 //@ contract (JWTTrackedRequestCodec).Encode
@@ -138,6 +138,17 @@ package samlsp
 //@ -- be the library's StandardClaims.Valid, promoted from the embedded field - a Valid declared on the claims type itself
 //@ -- would silently replace it
 //@ dispatch[C16] JWTSessionClaims.Valid promoted StandardClaims
+//@ -- ... and the fields that method reads are the ones the token's JSON is decoded into: a field of the same name or the
+//@ -- same JSON key declared on the claims type itself would receive the value and leave StandardClaims' own at zero,
+//@ -- which the library reads as "no constraint"
+//@ dispatch[C16] JWTSessionClaims.ExpiresAt promoted StandardClaims
+//@ dispatch[C16] JWTSessionClaims.NotBefore promoted StandardClaims
+//@ dispatch[C16] JWTSessionClaims.IssuedAt promoted StandardClaims
+//@ dispatch[C16] JWTSessionClaims.Audience promoted StandardClaims
+//@ dispatch[C16] JWTSessionClaims.Issuer promoted StandardClaims
+//@ xmlshape[C16] JWTSessionClaims
+//@ xmlshape[C04,C17] JWTTrackedRequestClaims
+//@ xmlshape[C04,C17] TrackedRequest
 //@ dispatch[C17] JWTTrackedRequestClaims.Valid promoted RegisteredClaims
 //@ go func trackedID(t RequestTracker, r *http.Request, id string) bool {
 //@    return exists(0, len(TrackedOf(t, r)), func(j int) bool { return TrackedOf(t, r)[j].SAMLRequestID == id }) }
